@@ -59,8 +59,9 @@ def r2_load_sites(ck, F):
         for s, c, t in calls(b, A("block_new")):
             sites.append((b, s))
     ck.exact(R, "Block::new call sites", len(sites), 8, F.config)
-    files = sorted({rel(b.file) for b, s in sites})
-    ck.ob(R, "loads-only-in-reader-cursor", files == ["src/reader/reader_cursor.rs"], f"block loads occur only in {files}", config=F.config)
+    from .fmt import module_of
+    files = sorted({module_of(b.path) for b, s in sites})
+    ck.ob(R, "loads-only-in-reader-cursor", files == ["reader::reader_cursor"], f"block loads occur only in module(s) {files}", config=F.config)
     rf = sorted({b.path for b in F.user_bodies() for s, c, t in calls(b, A("block_read_from"))})
     ck.ob(R, "read_from-only-via-new", rf == [A("block_new")], f"Block::read_from is called only from {rf}", config=F.config)
     for adt in (A("block_struct"), A("block_cursor")):
